@@ -36,6 +36,7 @@ type c11Tree struct {
 	llOurs   []*TNode // long light fork: 14 blocks 100 ms apart on genesis (difficulty rises every block)
 	llTheirs []*TNode // long light fork: 75 blocks 15 s apart on genesis (minimal difficulty); heavier than llOurs only above height 14+51
 	invalid map[string]*TNode
+	extra   *TNode // c12pk: a valid block on the tip that the node has not seen
 	badTx   [][]byte
 	idx     map[*TNode]int
 	file    *TreeFile
